@@ -21,14 +21,18 @@ default.  The VM model (`B6.Model.VM`) spends fuel at exactly the same points.
 -/
 namespace B6.Model
 
-/-- the builtin table of the harness (`harness/cmd/c21/lib.go`); `keyed … or` are the real
-`functions.Functions()` entries, used by C22 -/
+/-- the builtin table of the harness (`harness/cmd/c21/lang`); `keyed … or` and the two variadic
+functions `collection`, `call` are the real `functions.Functions()` entries.  A variadic Go function
+`func(c, fixed…, rest ...T)` has `NumArgs = fixed + 1`; called with `n ≥ fixed` arguments it is complete
+(the rest converted to `T`), with fewer it gives a partial application (`want`, `paramsAt`). -/
 inductive Builtin where
   | zero | add | sub | div | mix
   | pair | first | second
   | call1 | call2 | apply | force
   | keyed | tagged | typed | and | or
   | matchq      -- what `convertQueryToCallable` turns a query into (not addressable by name)
+  | collection  -- the real variadic `collection(pairs ...interface{})`
+  | call        -- the real variadic `call(f Callable, args ...interface{})`
   deriving DecidableEq, Repr, Inhabited
 
 /-- Go parameter types that occur in the table, as far as `ConvertWithContext` distinguishes them -/
@@ -46,9 +50,11 @@ def name : Builtin → String
   | call1 => "call1" | call2 => "call2" | apply => "apply" | force => "force"
   | keyed => "keyed" | tagged => "tagged" | typed => "typed" | and => "and" | or => "or"
   | matchq => "matches"
+  | collection => "collection" | call => "call"
 
 def all : List Builtin :=
-  [zero, add, sub, div, mix, pair, first, second, call1, call2, apply, force, keyed, tagged, typed, and, or]
+  [zero, add, sub, div, mix, pair, first, second, call1, call2, apply, force, keyed, tagged, typed, and, or,
+    collection, call]
 
 def ofName (s : String) : Option Builtin := all.find? (fun b => b.name == s)
 
@@ -61,8 +67,30 @@ def params : Builtin → List Ty
   | keyed => [.str] | tagged => [.str, .str] | typed => [.str, .query]
   | and => [.query, .query] | or => [.query, .query]
   | matchq => [.any]
+  | collection => []          -- the fixed parameters; the variadic one is `variadic`
+  | call => [.callable]
 
-def arity (b : Builtin) : Nat := b.params.length
+/-- element type of the variadic parameter of a Go function `func(c, fixed…, rest ...T)` -/
+def variadic : Builtin → Option Ty
+  | collection => some .any
+  | call => some .any
+  | _ => none
+
+/-- `goCall.NumArgs()` = `NumIn() - 1`: the variadic slice counts as one parameter -/
+def arity (b : Builtin) : Nat := b.params.length + (match b.variadic with | some _ => 1 | none => 0)
+
+/-- the number of arguments with which a call from the stack with `n` arguments is complete
+(`goCall.CallFromStack`: `expected`, one less and no upper limit for a variadic function) -/
+def want (b : Builtin) (n : Nat) : Nat :=
+  match b.variadic with
+  | some _ => if n ≥ b.params.length then n else b.params.length
+  | none => b.params.length
+
+/-- the Go parameter types the `n` arguments of a complete call are converted to -/
+def paramsAt (b : Builtin) (n : Nat) : List Ty :=
+  match b.variadic with
+  | some t => b.params ++ List.replicate (n - b.params.length) t
+  | none => b.params
 
 end Builtin
 
@@ -160,6 +188,32 @@ inductive Step where
   | tail (f : Val) (args : List Val)
   | fail
 
+def hexNibble (n : Nat) : Char :=
+  if n < 10 then Char.ofNat ('0'.toNat + n) else Char.ofNat ('a'.toNat + n - 10)
+
+def hexOfString (s : String) : String :=
+  String.ofList (s.toUTF8.toList.flatMap fun b => [hexNibble (b.toNat / 16), hexNibble (b.toNat % 16)])
+
+/-- how a key or value inside a collection is observed: data structurally, a query as `q`, a function by
+its arity (the harness renders the items of a `b6.Collection` the same way) -/
+def Val.cellToks : Val → List String
+  | .int i => [toString i]
+  | .str s => ["x:" ++ hexOfString s]
+  | .query _ => ["q"]
+  | .other k _ => ["o:" ++ k]
+  | .pair a b => ["(", "pair"] ++ a.cellToks ++ b.cellToks ++ [")"]
+  | v => [match v.arity with | some n => "fn/" ++ toString n | none => "fn/?"]
+
+def isPairVal : Val → Bool
+  | .pair _ _ => true
+  | _ => false
+
+/-- the value of `collection p…`: the items, observed (`Val.other "coll" text`) -/
+def collText : List Val → List String
+  | [] => []
+  | .pair a b :: ps => a.cellToks ++ b.cellToks ++ collText ps
+  | _ :: ps => collText ps
+
 def Builtin.step : Builtin → List Val → Step
   | .zero, [] => .value (.int 0)
   | .add, [.int a, .int b] => .value (.int (wrap64 (a + b)))
@@ -178,6 +232,8 @@ def Builtin.step : Builtin → List Val → Step
   | .typed, [.str t, .query q] => .value (.query (.typed (normType t) q))
   | .and, [.query a, .query b] => .value (.query (.inter [a, b]))
   | .or, [.query a, .query b] => .value (.query (.union [a, b]))
+  | .collection, ps => if ps.all isPairVal then .value (.other "coll" ("_".intercalate (collText ps))) else .fail
+  | .call, f :: xs => .tail f xs
   | _, _ => .fail
 
 mutual
@@ -222,9 +278,9 @@ def applyFn : Nat → Val → List Val → Res Val
   | fuel + 1, f, args =>
     match f with
     | .builtin b =>
-      if args.length > b.arity then .error .error
-      else if args.length == b.arity then
-        match convertAll b.params args with
+      if args.length > b.want args.length then .error .error
+      else if args.length == b.want args.length then
+        match convertAll (b.paramsAt args.length) args with
         | .error e => .error e
         | .ok cs => match b.step cs with
           | .value v => .ok v
@@ -276,7 +332,7 @@ because such a call may re-enter the same lambda and overwrite its registers.  T
 
 /-- builtins whose Go body calls back into the VM -/
 def Builtin.higherOrder : Builtin → Bool
-  | .call1 | .call2 | .apply | .force => true
+  | .call1 | .call2 | .apply | .force | .call => true
   | _ => false
 
 namespace Expr
@@ -342,12 +398,6 @@ def Val.obs : Val → Obs
   | v => .fn v.arity
 
 /-! ### canonical text of results (what the harness prints for the Go value) -/
-
-def hexNibble (n : Nat) : Char :=
-  if n < 10 then Char.ofNat ('0'.toNat + n) else Char.ofNat ('a'.toNat + n - 10)
-
-def hexOfString (s : String) : String :=
-  String.ofList (s.toUTF8.toList.flatMap fun b => [hexNibble (b.toNat / 16), hexNibble (b.toNat % 16)])
 
 mutual
   /-- queries inside **values**: strings in hex (a key can hold any bytes, see `runeString`) -/
